@@ -1,4 +1,4 @@
-// C19 U4 (bounded: metadata prefixes of <= 10 bytes, arbitrary reader state): the Thrift compact-protocol reader that
+// C19 U4 (bounded: metadata prefixes of <= 10 bytes (<= 4 for the thorough-only skip harness), arbitrary reader state): the Thrift compact-protocol reader that
 // decodes Parquet footers and page headers (thrift.rs, `TCompactSliceInputProtocol`).  On ARBITRARY bytes every read
 // operation -- and the generic `skip` of an unknown field of ANY wire type -- returns Ok or Err; it never panics
 // (slice index, shift / add overflow, `unimplemented!`), never reads past the slice (CBMC pointer checks on the real
@@ -75,7 +75,7 @@ fn c19_thrift__field_and_list_headers_ok_or_err_never_trap__bnd() {
     } else {
         let r = p.read_list_begin();
         if let Ok(id) = &r {
-            kani::cover!(id.size > 14);
+            kani::cover!(id.size > 3);
             assert!(id.size >= 0 && id.size as usize <= p.buf.len(), "list header announces more elements than bytes left (unbounded allocation)");
         }
         std::mem::forget(r);
@@ -104,10 +104,10 @@ fn c19_thrift__bytes_ok_or_err_never_trap__bnd() {
 #[kani::proof]
 #[kani::unwind(9)]
 #[kani::stub(std::fmt::format, stub_format)]
-fn c19_thrift__skip_any_type_ok_or_err_never_trap__bnd() {
-    let buf: [u8; 5] = kani::any();
+fn c19_thrift__skip_any_type_ok_or_err_never_trap__bnd__thr() {
+    let buf: [u8; 4] = kani::any();
     let n: usize = kani::any();
-    kani::assume(n <= 5);
+    kani::assume(n <= 4);
     let mut p = TCompactSliceInputProtocol::new(&buf[..n]);
     let t: u8 = kani::any();
     kani::assume(t < 11);
@@ -125,7 +125,7 @@ fn c19_thrift__skip_any_type_ok_or_err_never_trap__bnd() {
         _ => TType::Map,
     };
     kani::cover!(t == 9);
-    kani::cover!(t == 7 && n == 5);
+    kani::cover!(t == 7 && n == 4);
     let r = p.skip(ty);
     std::mem::forget(r);
     assert!(p.buf.len() <= n);
